@@ -368,10 +368,12 @@ struct History
 {
   char api;  // 'L' = TraceRecorder object + ThreadEventList methods, 'G' = global functions
   bool pname, named;
+  bool seq;  // threads run one after another (start, record, join, next): ids of finished threads get reused
   std::vector<std::string> specs;  // one per thread
+  History() : api('L'), pname(false), named(false), seq(false) {}
   std::string text() const
   {
-    std::string s = std::string("tr:") + api + ":" + (pname ? "1" : "0") + ":" + (named ? "1" : "0") + ":";
+    std::string s = std::string(seq ? "ts:" : "tr:") + api + ":" + (pname ? "1" : "0") + ":" + (named ? "1" : "0") + ":";
     for (size_t i = 0; i < specs.size(); i++)
       s += (i ? "/" : "") + specs[i];
     return s;
@@ -380,8 +382,9 @@ struct History
 
 static bool parse_history(const std::string &r, History &h)
 {
-  if (r.size() < 9 || r.compare(0, 3, "tr:") != 0)
+  if (r.size() < 9 || (r.compare(0, 3, "tr:") != 0 && r.compare(0, 3, "ts:") != 0))
     return false;
+  h.seq = r[1] == 's';
   h.api = r[3];
   h.pname = r[5] == '1';
   h.named = r[7] == '1';
@@ -450,13 +453,25 @@ static void child_record(const History &h, const std::vector<std::vector<Ev>> &e
   }
   tracing::TraceRecorder rec;
   std::vector<std::thread> th;
-  for (int k = 1; k < T; k++) {
+  if (h.seq) {
+    // every recording thread is a std::thread that is joined before the next one starts
+    for (int k = 0; k < T; k++) {
+      std::thread t([&, k]() {
+        if (h.api == 'L')
+          record_L(rec, k, h.named, evs[k], ids[k]);
+        else
+          record_G(k, h.named, evs[k], ids[k]);
+      });
+      t.join();
+    }
+  }
+  for (int k = 1; k < T && !h.seq; k++) {
     if (h.api == 'L')
       th.emplace_back([&, k]() { record_L(rec, k, h.named, evs[k], ids[k]); });
     else
       th.emplace_back([&, k]() { record_G(k, h.named, evs[k], ids[k]); });
   }
-  if (T > 0) {
+  if (T > 0 && !h.seq) {
     if (h.api == 'L')
       record_L(rec, 0, h.named, evs[0], ids[0]);
     else
@@ -622,37 +637,63 @@ static void run_history(const History &h, const std::string &replay, const std::
     viol("saveLog|array element is not an event object|" + cls, replay, shape_err);
     return;
   }
-  // map every recording thread to its output tid
+  // Map every recording thread to its output tid.  The log knows threads by std::thread::id: when a
+  // later thread got the id of a finished one (sequential histories) the two are one thread as far
+  // as the log is concerned, and the id must carry the concatenation of their events.
   bool bad = false;
   std::set<long> used;
-  for (int k = 0; k < T; k++) {
-    const std::string want_name = h.named ? "T" + std::to_string(k) : ids[k];
+  std::vector<std::vector<int>> groups;
+  {
+    std::map<std::string, size_t> by_id;
+    for (int k = 0; k < T; k++) {
+      std::string key = ids[k].empty() ? "#" + std::to_string(k) : ids[k];
+      auto it = by_id.find(key);
+      if (it == by_id.end()) {
+        by_id[key] = groups.size();
+        groups.push_back(std::vector<int>(1, k));
+      } else
+        groups[it->second].push_back(k);
+    }
+  }
+  for (const std::vector<int> &g : groups) {
+    const int k = g[0];
+    const bool shared = g.size() > 1;
+    if (shared)
+      vr::stat("thread_id_reused_groups");
+    std::vector<Ev> want;
+    std::set<std::string> want_names;
+    std::string members;
+    for (int m : g) {
+      want.insert(want.end(), evs[m].begin(), evs[m].end());
+      want_names.insert(h.named ? "T" + std::to_string(m) : ids[m]);
+      members += (members.empty() ? "" : "+") + std::to_string(m);
+    }
+    const std::string idcls = shared ? "|thread id reused by a later thread" : "";
     long tid = -1;
     int hits = 0;
     for (auto &kv : tid_name)
-      if (kv.second == want_name) {
+      if (want_names.count(kv.second)) {
         tid = kv.first;
         hits++;
       }
     if (vr::replaying())
-      printf("thread %d ('%s'): recorded %zu events; output tid %ld has %zu\n", k, want_name.c_str(), evs[k].size(), tid,
+      printf("thread %s (id '%s'): recorded %zu events; output tid %ld has %zu\n", members.c_str(), ids[k].c_str(), want.size(), tid,
           tid >= 0 ? by_tid[tid].size() : (size_t)0);
     if (hits == 0) {
-      if (!evs[k].empty()) {
-        viol("saveLog|a recording thread is missing from the log|" + cls, replay,
-            "thread " + std::to_string(k) + " ('" + want_name + "') recorded " + std::to_string(evs[k].size()) + " events, no thread_name entry for it");
+      if (!want.empty()) {
+        viol("saveLog|a recording thread is missing from the log|" + cls + idcls, replay,
+            "thread " + members + " (id '" + ids[k] + "') recorded " + std::to_string(want.size()) + " events, no thread_name entry for it");
         bad = true;
       }
       continue;
     }
     if (hits > 1) {
-      viol("saveLog|a thread appears under two ids|" + cls, replay, "thread " + std::to_string(k));
+      viol("saveLog|a thread appears under two ids|" + cls + idcls, replay, "thread " + members);
       bad = true;
       continue;
     }
     used.insert(tid);
     const std::vector<OutEv> &got = by_tid[tid];
-    const std::vector<Ev> &want = evs[k];
     size_t n = std::min(got.size(), want.size()), i = 0;
     int depth = 0;
     for (; i < n; i++) {
@@ -674,10 +715,10 @@ static void run_history(const History &h, const std::string &replay, const std::
     oh = vr::fnv(&i, sizeof i, oh);
     if (i < n || got.size() != want.size()) {
       std::string what = i < n ? "an event differs from what was recorded" : got.size() < want.size() ? "recorded events are missing" : "events that were not recorded";
-      std::string det = "thread " + std::to_string(k) + " of " + std::to_string(T) + ": recorded " + std::to_string(want.size()) + " events, log has " + std::to_string(got.size())
+      std::string det = "thread " + members + " of " + std::to_string(T) + ": recorded " + std::to_string(want.size()) + " events, log has " + std::to_string(got.size())
           + "; first difference at index " + std::to_string(i) + ": got " + (i < got.size() ? "'" + out_text(got[i]) + "'" : "<nothing>") + " want "
           + (i < want.size() ? "'" + ev_text(want[i]) + "'" : "<nothing>");
-      viol(std::string("saveLog|") + what + "|" + pos_class(i), replay, det);
+      viol(std::string("saveLog|") + what + "|" + pos_class(i) + idcls, replay, det);
       bad = true;
     }
   }
@@ -762,6 +803,42 @@ static void build_cases(std::vector<History> &cases)
             cases.push_back(h);
           }
     }
+  // (1s) sequential threads: T threads run one after another, thread k records word (i + k*stride) mod Ns
+  //      over all words of length <= 4 (thorough 5); plus pairs whose concatenation crosses a chunk edge
+  {
+    std::vector<std::string> sw;
+    all_words(th ? 5 : 4, sw);
+    const size_t Ns = sw.size();
+    size_t st = 37;
+    while (Ns % st == 0)
+      st += 2;
+    for (size_t i = 0; i < Ns && g_part != "long"; i++)
+      for (int T = 2; T <= (th ? 4 : 3); T++)
+        for (int a = 0; a < 2; a++)
+          for (int nm = 0; nm < 2; nm++) {
+            History h;
+            h.seq = true;
+            h.api = apis[a];
+            h.pname = (i + T + a) & 1;
+            h.named = nm;
+            for (int k = 0; k < T; k++)
+              h.specs.push_back(sw[(i + k * st) % Ns]);
+            cases.push_back(h);
+          }
+    static const char *const EDGE[4][3] = {{"L8191.1.0", "L2.0.0", "BE"}, {"L8192.2.1", "M", "L8193.0.0"}, {"C", "L8192.0.0", "-"}, {"L8190.3.0", "BBEE", "MC"}};
+    for (int e = 0; e < 4 && g_part != "short"; e++)
+      for (int a = 0; a < 2; a++)
+        for (int nm = 0; nm < 2; nm++) {
+          History h;
+          h.seq = true;
+          h.api = apis[a];
+          h.pname = (e + a) & 1;
+          h.named = nm;
+          for (int k = 0; k < 3; k++)
+            h.specs.push_back(EDGE[e][k]);
+          cases.push_back(h);
+        }
+  }
   // (2) chunk edges: periodic patterns of the lengths around the 8192-event chunk size
   for (int li = 0; li < 6 && g_part != "short"; li++)
     for (int d = 0; d <= 4; d++) {
